@@ -26,6 +26,7 @@ mod cmd_entjson;
 mod cmd_ffi;
 mod cmd_tpe;
 mod cmd_symcc;
+mod cmd_nopanic;
 
 /// Command families.  To add one: create src/cmd_xxx.rs with
 /// `pub fn dispatch(cmd: &str, v: &J) -> Option<Result<J, String>>`, add `mod cmd_xxx;` above
@@ -51,6 +52,7 @@ const FAMILIES: &[fn(&str, &J) -> Option<Result<J, String>>] = &[
     cmd_ffi::dispatch,
     cmd_tpe::dispatch,
     cmd_symcc::dispatch,
+    cmd_nopanic::dispatch,
 ];
 
 fn dispatch(cmd: &str, v: &J) -> Result<J, String> {
